@@ -106,7 +106,157 @@ def w_vals(p, tier, tasks=None):
 def plan(tier, seed):
     tasks = [dict(op="datafit", cls=c, weight=2) for c in specs(tier) if c != "Cox"]
     tasks += [dict(op="datafit", cls="Cox", efron=e, part=k, weight=6) for e in (False, True) for k in range(3)]
+    tasks += [dict(op="history", cls=c, weight=3) for c in specs(tier)]
     return tasks
+
+
+# ------------------------------------------------------------------ accessor histories (engine H): accessors are functions of their arguments
+#
+# One compiled datafit object lives through a history of operations (re-initialisation on another target of the same shape, accessor calls
+# at other points); then ONE accessor is probed at a point.  Its result must be bit-identical to the same probe on a fresh object that
+# only saw the last initialisation: an accessor that answers from a stale cache does not return the derivative *at that point*.
+
+HIST_SKIP = ("initialize", "initialize_sparse", "get_spec", "params_to_dict")
+
+
+def hist_problem(dspec0, tier):
+    """(dspec, X, [y0, y1], [w0, w1]) : two targets of the same shape, two evaluation points in range."""
+    name = dspec0["name"]
+    X = A.G_TALL if name != "Cox" else A.G_TALL
+    dspec = concrete_specs(dspec0, X)[-1]
+    n, p = X.shape
+    reg = A.reg_targets(X)
+    if name in ("Logistic", "LogisticGroup", "QuadraticSVC"):
+        ys = [np.array([1., -1., 1., 1., -1., -1.]), np.array([-1., -1., 1., -1., 1., 1.])]
+    elif name == "Poisson":
+        ys = [np.abs(np.round(reg["generic"])), np.arange(n, dtype=float)]
+    elif name == "Gamma":
+        ys = [np.abs(reg["generic"]) + 0.25, np.abs(reg["shifted"]) + 0.5]
+    elif name == "QuadraticMultiTask":
+        ys = [np.asfortranarray(np.column_stack([reg["generic"], reg["generic2"]])), np.asfortranarray(np.column_stack([reg["shifted"], reg["generic"]]))]
+    elif name == "Cox":
+        tm = np.array([1., 2., 2., 3., 2., 1.])
+        ys = [np.column_stack([tm, [1., 1., 0., 1., 1., 0.]]), np.column_stack([tm[::-1], [1., 0., 1., 1., 1., 1.]])]
+    else:
+        ys = [reg["generic"], reg["shifted"]]
+    ws = [np.array([0.5, -1.0, 0.25]), np.array([-0.25, 0.5, 1.0])]
+    if name == "QuadraticSVC":
+        ws = [np.array([0.5, 0.1, 0.25, 0.0, 0.3, 0.2]), np.array([0.0, 0.4, 0.1, 0.2, 0.0, 0.6])]
+    if name == "QuadraticMultiTask":
+        ws = [np.column_stack([w, 2 * w]) for w in ws]
+    return dspec, X, ys, ws
+
+
+def hist_env(dspec, X, y, w):
+    """Argument values by parameter name, as the solvers pass them."""
+    name = dspec["name"]
+    Xe = np.asfortranarray((X * y[:, None]).T) if name == "QuadraticSVC" else np.asfortranarray(X)
+    Xs = sp.csc_matrix(Xe)
+    Xw = Xe @ w
+    if Xw.ndim == 2:
+        Xw = np.asfortranarray(Xw)
+    p = Xe.shape[1]
+    G = len(dspec["grp_ptr"]) - 1 if "grp_ptr" in dspec else 1
+    env = dict(X=Xe, y=y, Y=y, w=w, W=w, Xw=Xw.copy(), XW=Xw.copy(), j=p - 1, g=G - 1, X_data=Xs.data, X_indptr=Xs.indptr, X_indices=Xs.indices,
+               step=0.5, z=Xw.copy() * 0.5 + 0.25)
+    return env, Xe, Xs
+
+
+def hist_accessors(dspec):
+    import inspect
+    import skglm.datafits as D
+    from skglm.experimental.sqrt_lasso import SqrtQuadratic
+    from skglm.experimental.quantile_regression import Pinball
+    cls = {"SqrtQuadratic": SqrtQuadratic, "Pinball": Pinball}.get(dspec["name"]) or getattr(D, dspec["name"])
+    out = {}
+    for nme, fn in inspect.getmembers(cls, predicate=inspect.isfunction):
+        if nme.startswith("_") or nme in HIST_SKIP:
+            continue
+        out[nme] = list(inspect.signature(fn).parameters)[1:]
+    return out
+
+
+def hist_run(dspec, X, ys, ws, history, probe, sparse_init, first=0):
+    """Fresh object -> init(y_first) -> history -> probe.  Returns the probe's result (or an exception marker)."""
+    from mc import build
+    d = build.datafit(dspec)
+    acc = hist_accessors(dspec)
+
+    def init(k):
+        env, Xe, Xs = hist_env(dspec, X, ys[k], ws[0])
+        if sparse_init and hasattr(d, "initialize_sparse"):
+            d.initialize_sparse(Xs.data, Xs.indptr, Xs.indices, env["y"])
+        elif hasattr(d, "initialize"):
+            d.initialize(Xe, env["y"])
+
+    def call(nme, k, cur):
+        env, _, _ = hist_env(dspec, X, ys[cur], ws[k])
+        try:
+            args = [env[a] for a in acc[nme]]
+        except KeyError:
+            return "skipped"
+        try:
+            build.seed_numba(12345)              # the power method draws its start from numba's RNG: owned by the harness
+            r = getattr(d, nme)(*args)
+        except Exception as e:
+            return "exc:" + type(e).__name__
+        return np.array(r, dtype=float).copy() if r is not None else None
+    cur = first
+    init(first)
+    for op in history:
+        if op[0] == "init":
+            cur = op[1]
+            init(cur)
+        else:
+            call(op[1], op[2], cur)
+    return call(probe[0], probe[1], cur), cur
+
+
+def same_result(a, b):
+    if isinstance(a, str) or isinstance(b, str) or a is None or b is None:
+        return (a is None and b is None) or (isinstance(a, str) and isinstance(b, str) and a == b)
+    return a.shape == b.shape and bool(np.array_equal(a, b, equal_nan=True))
+
+
+def run_history(task, ctx):
+    tier = ctx.tier
+    cls = task["cls"]
+    for dspec0 in specs(tier)[cls][:2]:
+        dspec, X, ys, ws = hist_problem(dspec0, tier)
+        acc = hist_accessors(dspec)
+        names = sorted(acc)
+        ops = [("init", 1), ("init", 0)] + [("call", nme, k) for nme in names for k in (0, 1)]
+        depth = 1 if tier == "quick" else 2
+        hists = [()]
+        for dd in range(depth):
+            hists += [h + (o,) for h in hists if len(h) == dd for o in ops]
+        for sparse_init in (False, True):
+            fresh = {}
+            for h in hists:
+                last = 0
+                for o in h:
+                    if o[0] == "init":
+                        last = o[1]
+                for nme in names:
+                    for k in (0, 1):
+                        if h and h[-1] == ("call", nme, k):
+                            continue                      # the probe would just repeat the last call
+                        key = (last, nme, k)
+                        if key not in fresh:
+                            fresh[key] = hist_run(dspec, X, ys, ws, (), (nme, k), sparse_init, first=last)[0]
+                        if isinstance(fresh[key], str) and fresh[key] == "skipped":
+                            continue
+                        got, _ = hist_run(dspec, X, ys, ws, h, (nme, k), sparse_init)
+                        ctx.count("history_probes")
+                        ctx.transitions = getattr(ctx, "transitions", 0)
+                        ctx.obs(got if not isinstance(got, str) else None, nontrivial=not isinstance(got, str) and got is not None and bool(np.any(got)))
+                        if not same_result(got, fresh[key]):
+                            params = dict(op="history", dspec=dspec, cls=cls, history=[list(o) for o in h], probe=[nme, k], sparse_init=sparse_init)
+                            ctx.violation(f"datafit:{dspec['name']}.{nme}", "result_depends_on_earlier_calls", params,
+                                          got if isinstance(got, str) else (None if got is None else np.asarray(got).tolist()),
+                                          fresh[key] if isinstance(fresh[key], str) else (None if fresh[key] is None else np.asarray(fresh[key]).tolist()),
+                                          where=dict(datafit=dspec["name"], accessor=nme, after=(h[-1][0] if h else "nothing")))
+        ctx.sample(dict(op="history", dspec=dspec, accessors=names, histories=len(hists)))
 
 
 def cox_designs(tier, part):
@@ -308,6 +458,8 @@ def in_range(dspec, X, y, w):
 
 
 def run(task, ctx):
+    if task["op"] == "history":
+        return run_history(task, ctx)
     tier = ctx.tier
     cls = task["cls"]
     for dspec0 in specs(tier)[cls]:
@@ -392,6 +544,18 @@ def prox_checks(ctx, d, dspec, y, base):
 
 def replay(params):
     from mc.core import fhex
+    if params["op"] == "history":
+        dspec0 = next(d for d in specs("quick")[params["cls"]] if concrete_specs(d, A.G_TALL)[-1] == params["dspec"])
+        dspec, X, ys, ws = hist_problem(dspec0, "quick")
+        h = tuple(tuple(o) for o in params["history"])
+        last = 0
+        for o in h:
+            if o[0] == "init":
+                last = o[1]
+        got, _ = hist_run(dspec, X, ys, ws, h, tuple(params["probe"]), params["sparse_init"])
+        ref, _ = hist_run(dspec, X, ys, ws, (), tuple(params["probe"]), params["sparse_init"], first=last)
+        return dict(violated=not same_result(got, ref), kinds=["result_depends_on_earlier_calls"] if not same_result(got, ref) else [],
+                    got=fhex(None if isinstance(got, str) else got), ref=fhex(None if isinstance(ref, str) else ref))
     if params["op"] == "prox":
         from mc import build
         y = np.array(params["y"], dtype=float)
@@ -422,5 +586,7 @@ def describe(tier, agg):
             "1-feature, 2-sample} x targets of the right kind (Cox: every (time,status) in {1,2,3}^n x {0,1}^n for n<=3, a "
             "fifth of the 1296 patterns at n=4 in quick / all in thorough) x w grid; every accessor the class offers, dense and "
             "CSC, vs reference loss/gradient/Hessian; prox / prox_conjugate of the primal-dual datafits (sqrt, pinball) vs brute-force "
-            "minimisation and Moreau's identity; distinct = distinct observation vectors at w != 0, X != 0")
+            "minimisation and Moreau's identity; accessor histories (engine H): one live object per datafit, every history of <= 1 (2 thorough) "
+            "operations {re-initialise on another target, any accessor at either of two points} followed by every single-accessor probe, "
+            "dense- and sparse-initialised, must answer like a fresh object; distinct = distinct observation vectors at w != 0, X != 0")
     return rule, {"problems": 200}
